@@ -93,3 +93,51 @@ Proof.
   rewrite (u64_id (pos + Z.of_nat i)) by (unfold is_size_t, two64; lia).
   replace (Z.to_nat (pos + Z.of_nat i)) with (Z.to_nat pos + i)%nat by lia. reflexivity.
 Qed.
+
+(** the site functions refine the guards: site 0 = let through; site 1 = the first documented clause fails *)
+Lemma static_set_ctor_site_spec cap d :
+  (static_set_ctor_site cap d = 0%nat <-> static_set_ctor cap d = true) /\ (static_set_ctor_site cap d = 1%nat <-> d < 0).
+Proof.
+  unfold static_set_ctor_site, static_set_ctor. destruct (d >=? 0) eqn:E; cbn [andb].
+  - destruct (u64 d <=? cap); split; split; intros H; try discriminate; try reflexivity; lia.
+  - split; split; intros H; try discriminate; try reflexivity; lia.
+Qed.
+
+Lemma copy_ptrs_site_spec d s :
+  (copy_ptrs_site d s = 0%nat <-> copy_ptrs_guard d s = true) /\ (copy_ptrs_site d s = 1%nat <-> d = false).
+Proof. destruct d, s; cbn; split; split; intros H; try discriminate; reflexivity. Qed.
+
+Lemma linalg_add_site_spec x y z :
+  (linalg_add_site x y z = 0%nat <-> linalg_add_guard x y z = true) /\ (linalg_add_site x y z = 1%nat <-> ~ pre_same_extents x y).
+Proof.
+  unfold linalg_add_site, linalg_add_guard. rewrite <- extents_eq_false_iff.
+  destruct (extents_eq x y), (extents_eq x z); cbn; split; split; intros H; try discriminate; reflexivity.
+Qed.
+
+Lemma linalg_mvp_site_spec a0 a1 x0 y0 :
+  (linalg_mvp_site a0 a1 x0 y0 = 0%nat <-> linalg_mvp_guard a0 a1 x0 y0 = true) /\ (linalg_mvp_site a0 a1 x0 y0 = 1%nat <-> a1 <> x0).
+Proof.
+  unfold linalg_mvp_site, linalg_mvp_guard. destruct (a1 =? x0) eqn:E1, (a0 =? y0) eqn:E2; cbn; split; split; intros H; try discriminate; try reflexivity; lia.
+Qed.
+
+Lemma bitset_str_site_spec str pos n zero one : is_size_t pos ->
+  (bitset_str_site str pos n zero one = 0%nat <-> bitset_str_guard str pos n zero one = true) /\
+  (bitset_str_site str pos n zero one = 1%nat <-> pos > slen str).
+Proof.
+  intros Hp. unfold bitset_str_site. pose proof (u64_id pos Hp) as Hu.
+  destruct (u64 pos <=? zlen str) eqn:E.
+  - destruct (bitset_str_guard str pos n zero one); split; split; intros H; try discriminate; try reflexivity;
+      unfold zlen, slen in *; lia.
+  - assert (G : bitset_str_guard str pos n zero one = false) by (unfold bitset_str_guard; rewrite E; reflexivity).
+    rewrite G. split; split; intros H; try discriminate; try reflexivity. unfold zlen, slen in *; lia.
+Qed.
+
+Lemma span_subspan_site_spec n off c : is_size_t off ->
+  (span_subspan_site n off c = 0%nat <-> span_subspan n off c = true) /\ (span_subspan_site n off c = 1%nat <-> off > n).
+Proof.
+  intros Ho. unfold span_subspan_site. pose proof (u64_id off Ho) as Hu.
+  destruct (u64 off <=? n) eqn:E.
+  - destruct (span_subspan n off c); split; split; intros H; try discriminate; try reflexivity; lia.
+  - assert (G : span_subspan n off c = false) by (unfold span_subspan; rewrite E; reflexivity).
+    rewrite G. split; split; intros H; try discriminate; try reflexivity. lia.
+Qed.
